@@ -83,7 +83,7 @@ theorem ext_insert_fresh {s : Sys} (h : RInv s) (w : Wid) :
   intro p w' hp
   have hlt := h.below p w' hp
   have hne : p ≠ s.env.nextPid := Nat.ne_of_lt hlt
-  simp [upd_apply, hne, hp]
+  simp [hne, hp]
 
 theorem mem_upd_append {α : Type} {q : Nat → List α} {w w' : Nat} {c c' : α}
     (h : c' ∈ upd q w (q w ++ [c]) w') : c' ∈ q w' ∨ (w' = w ∧ c' = c) := by
@@ -247,5 +247,279 @@ theorem RInv.envStep1 {s : Sys} (h : RInv s) (combine) (w : Wid) : RInv (envStep
     | await a ts => exact h1.handleAwait he
     | procResults a rs => exact h1.handleProcResults combine he
     | resultResp req r => exact { h1 with }
+
+/-! ### worker side -/
+
+/-- `w'` has the same processes (same pids, same registers) and awaiter table as `w`. -/
+structure SameProcs (w w' : WorkerSt) : Prop where
+  dom : ∀ p, (w'.procs p).isSome = (w.procs p).isSome
+  regs : ∀ p x', w'.procs p = some x' → ∃ x, w.procs p = some x ∧ x'.regs = x.regs
+  awaiters : w'.awaitersFor = w.awaitersFor
+
+theorem SameProcs.refl (w : WorkerSt) : SameProcs w w :=
+  ⟨fun _ => rfl, fun _ x' h => ⟨x', h, rfl⟩, rfl⟩
+
+theorem SameProcs.trans {a b c : WorkerSt} (h1 : SameProcs a b) (h2 : SameProcs b c) : SameProcs a c := by
+  refine ⟨fun p => (h2.dom p).trans (h1.dom p), ?_, h2.awaiters.trans h1.awaiters⟩
+  intro p x' hx'
+  obtain ⟨y, hy, e1⟩ := h2.regs p x' hx'
+  obtain ⟨x, hx, e2⟩ := h1.regs p y hy
+  exact ⟨x, hx, e1.trans e2⟩
+
+/-- changing only scheduling sets / awaited / request tables -/
+theorem SameProcs.of_eq {w w' : WorkerSt} (hp : w'.procs = w.procs) (ha : w'.awaitersFor = w.awaitersFor) : SameProcs w w' :=
+  ⟨fun p => by rw [hp], fun p x' h => ⟨x', by rw [← hp]; exact h, rfl⟩, ha⟩
+
+theorem SameProcs.updProc {w : WorkerSt} {p : Pid} {x x' : Proc} (hx : w.procs p = some x) (hr : x'.regs = x.regs)
+    {w' : WorkerSt} (hp : w'.procs = upd w.procs p (some x')) (ha : w'.awaitersFor = w.awaitersFor) : SameProcs w w' := by
+  refine ⟨?_, ?_, ha⟩
+  · intro q; rw [hp]; by_cases e : q = p
+    · subst e; simp [hx]
+    · simp [e]
+  · intro q y hy; rw [hp] at hy; by_cases e : q = p
+    · subst e; simp at hy; subst hy; exact ⟨x, hx, hr⟩
+    · simp [e] at hy; exact ⟨y, hy, rfl⟩
+
+theorem SameProcs.modProc (w : WorkerSt) (p : Pid) (f : Proc → Proc) (hf : ∀ x, (f x).regs = x.regs) :
+    SameProcs w (w.modProc p f) := by
+  unfold WorkerSt.modProc
+  split
+  · rename_i x hx; exact SameProcs.updProc hx (hf x) rfl rfl
+  · exact SameProcs.refl w
+
+theorem SameProcs.wakeSelecting (w : WorkerSt) (p : Pid) : SameProcs w (w.wakeSelecting p) := by
+  unfold WorkerSt.wakeSelecting; split
+  · exact SameProcs.of_eq rfl rfl
+  · exact SameProcs.refl w
+
+theorem SameProcs.markActive (w : WorkerSt) (p : Pid) : SameProcs w (w.markActive p) := by
+  unfold WorkerSt.markActive; split
+  · exact SameProcs.of_eq rfl rfl
+  · exact SameProcs.refl w
+
+theorem SameProcs.notifyResultOk (w : WorkerSt) (a t : Pid) (v : Val) : SameProcs w (w.notifyResultOk a t v) := by
+  unfold WorkerSt.notifyResultOk
+  refine (SameProcs.modProc w a _ ?_).trans (SameProcs.wakeSelecting _ a)
+  intro x; split <;> rfl
+
+theorem SameProcs.notifyFailure (w : WorkerSt) (a t : Pid) : SameProcs w (w.notifyFailure a t) := by
+  unfold WorkerSt.notifyFailure
+  split
+  · split
+    · exact (SameProcs.modProc w a (fun x => { x with awaitFailed := sinsert x.awaitFailed t }) (fun _ => rfl)).trans
+        (SameProcs.wakeSelecting _ a)
+    · exact SameProcs.refl w
+  · exact SameProcs.refl w
+
+theorem SameProcs.notifyResult (w : WorkerSt) (a t : Pid) (r : Res) : SameProcs w (w.notifyResult a t r) := by
+  cases r with
+  | ok v => exact SameProcs.notifyResultOk w a t v
+  | err => exact SameProcs.notifyFailure w a t
+
+theorem SameProcs.applyResults (a : Pid) : ∀ (rs : Results) (w : WorkerSt), SameProcs w (applyResults w a rs)
+  | [], w => SameProcs.refl w
+  | (t, some r) :: rest, w => by
+    unfold QM.Sys.applyResults
+    exact (SameProcs.notifyResult w a t r).trans (SameProcs.applyResults a rest _)
+  | (_, none) :: rest, w => by
+    unfold QM.Sys.applyResults
+    exact SameProcs.applyResults a rest w
+
+theorem SameProcs.checkExpired (w : WorkerSt) (prog : Prog) (now : Nat) (ordQ : List Pid) :
+    SameProcs w (w.checkExpired prog now ordQ) := SameProcs.of_eq rfl rfl
+
+theorem SameProcs.foldl {α : Type} (f : WorkerSt → α → WorkerSt) (hf : ∀ w a, SameProcs w (f w a)) :
+    ∀ (l : List α) (w : WorkerSt), SameProcs w (l.foldl f w)
+  | [], w => SameProcs.refl w
+  | a :: l, w => (hf w a).trans (SameProcs.foldl f hf l (f w a))
+
+theorem SameProcs.finish {w : WorkerSt} {cur : Pid} {x0 x : Proc} (hx : w.procs cur = some x0) (hr : x.regs = x0.regs)
+    (ordQ : List Pid) : SameProcs w (w.finish cur x ordQ) := by
+  unfold WorkerSt.finish
+  refine SameProcs.trans (b := { w with procs := upd w.procs cur (some { x with result := some x.finalRes }) })
+    (SameProcs.updProc (x' := { x with result := some x.finalRes }) hx hr rfl rfl) ?_
+  exact SameProcs.foldl _ (fun w' a => SameProcs.notifyResult w' a cur _) _ _
+
+/-- Replacing worker `i` by a state with the same processes preserves the routing invariant. -/
+theorem RInv.setWk_same {s : Sys} (h : RInv s) (i : Wid) {w' : WorkerSt} (hs : SameProcs (s.wk i) w') :
+    RInv (s.setWk i w') := by
+  refine { nofault := h.nofault, progwf := h.progwf, below := h.below, zero := h.zero, placed := ?_, cmds := ?_,
+           evts := h.evts, regs := ?_, awaiters := ?_ }
+  · intro w p hp
+    unfold known at hp; simp only [setWk_wk, upd_apply] at hp
+    split at hp
+    · rename_i e; subst e; rw [hs.dom] at hp; exact h.placed _ p hp
+    · exact h.placed w p hp
+  · intro w c hc
+    refine (h.cmds w c hc).mono (Ext.refl _) ?_
+    intro p hp
+    unfold known at *; simp only [setWk_wk, upd_apply]
+    split
+    · rename_i e; subst e; rw [hs.dom]; exact hp
+    · exact hp
+  · intro w p x hx q hq
+    simp only [setWk_wk, upd_apply] at hx
+    split at hx
+    · rename_i e; subst e
+      obtain ⟨x0, hx0, e⟩ := hs.regs p x hx
+      exact h.regs _ p x0 hx0 q (e ▸ hq)
+    · exact h.regs w p x hx q hq
+  · intro w t a ha
+    simp only [setWk_wk, upd_apply] at ha
+    split at ha
+    · rename_i e; subst e; rw [hs.awaiters] at ha; exact h.awaiters _ t a ha
+    · exact h.awaiters w t a ha
+
+/-- A more general replacement: the domain may grow by pids routed to `i`, registers and awaiters
+must be routed. -/
+theorem RInv.setWk {s : Sys} (h : RInv s) (i : Wid) {w' : WorkerSt}
+    (hdom : ∀ p, ((s.wk i).procs p).isSome → (w'.procs p).isSome)
+    (hplaced : ∀ p, (w'.procs p).isSome → s.env.router p = some i)
+    (hregs : ∀ p x, w'.procs p = some x → ∀ q ∈ x.regs, Routed s.env.router q)
+    (haw : ∀ t a, a ∈ w'.awaitersFor t → Routed s.env.router a) :
+    RInv (s.setWk i w') := by
+  refine { nofault := h.nofault, progwf := h.progwf, below := h.below, zero := h.zero, placed := ?_, cmds := ?_,
+           evts := h.evts, regs := ?_, awaiters := ?_ }
+  · intro w p hp
+    unfold known at hp; simp only [setWk_wk, upd_apply] at hp
+    split at hp
+    · rename_i e; subst e; exact hplaced p hp
+    · exact h.placed w p hp
+  · intro w c hc
+    refine (h.cmds w c hc).mono (Ext.refl _) ?_
+    intro p hp
+    unfold known at *; simp only [setWk_wk, upd_apply]
+    split
+    · rename_i e; subst e; exact hdom p hp
+    · exact hp
+  · intro w p x hx q hq
+    simp only [setWk_wk, upd_apply] at hx
+    split at hx
+    · rename_i e; subst e; exact hregs p x hx q hq
+    · exact h.regs w p x hx q hq
+  · intro w t a ha
+    simp only [setWk_wk, upd_apply] at ha
+    split at ha
+    · rename_i e; subst e; exact haw t a ha
+    · exact h.awaiters w t a ha
+
+/-! ### the time slice -/
+
+theorem reg_routed {router : Router} {p : Proc} (hz : Routed router 0) (hr : ∀ q ∈ p.regs, Routed router q) (r : Nat) :
+    Routed router (p.reg r) := by
+  unfold Proc.reg
+  rw [List.getD_eq_getElem?_getD]
+  cases h : p.regs[r]? with
+  | none => simpa using hz
+  | some q => simpa using hr q (List.mem_of_getElem? h)
+
+theorem selTargets_routed {router : Router} {p : Proc} (hz : Routed router 0) (hr : ∀ q ∈ p.regs, Routed router q) :
+    ∀ (srcs : List Src), ∀ t ∈ selTargets p srcs, Routed router t
+  | [], t, ht => by simp [selTargets] at ht
+  | .proc r :: rest, t, ht => by
+    simp only [selTargets, List.mem_cons] at ht
+    rcases ht with rfl | ht
+    · exact reg_routed hz hr r
+    · exact selTargets_routed hz hr rest t ht
+  | .recv _ :: rest, t, ht => by
+    simp only [selTargets] at ht; exact selTargets_routed hz hr rest t ht
+  | .timeout _ :: rest, t, ht => by
+    simp only [selTargets] at ht; exact selTargets_routed hz hr rest t ht
+
+theorem script_mem {prog : Prog} {p : Proc} {a : Act} (h : (p.script prog)[p.pc]? = some a) :
+    ∃ sc ∈ prog, a ∈ sc := by
+  unfold Proc.script at h
+  rw [List.getD_eq_getElem?_getD] at h
+  cases hf : prog[p.fn]? with
+  | none => simp [hf] at h
+  | some sc =>
+    simp [hf] at h
+    exact ⟨sc, List.mem_of_getElem? hf, List.mem_of_getElem? h⟩
+
+def OutOK (router : Router) (plen : Nat) (self : Pid) : Outcome → Prop
+  | .send t m => Routed router t ∧ m.src = self
+  | .spawn fn regs => fn < plen ∧ ∀ q ∈ regs, Routed router q
+  | .awaitInit ts => ∀ t ∈ ts, Routed router t
+  | _ => True
+
+theorem slice_ok {router : Router} {prog : Prog} (hwf : ProgWF prog) (hz : Routed router 0) (now : Nat) (self : Pid) :
+    ∀ (fuel : Nat) (p : Proc), (∀ q ∈ p.regs, Routed router q) →
+      (slice prog now self fuel p).1.regs = p.regs ∧ OutOK router prog.length self (slice prog now self fuel p).2
+  | 0, p, _ => by simp [slice, OutOK]
+  | fuel + 1, p, hr => by
+    unfold slice
+    split
+    · simp [OutOK]
+    · exact ⟨rfl, reg_routed hz hr _, rfl⟩
+    · rename_i fn pass hact
+      split
+      · simp [OutOK]
+      · refine ⟨rfl, ?_, ?_⟩
+        · obtain ⟨sc, hsc, hm⟩ := script_mem hact
+          exact hwf.2 sc hsc fn pass hm
+        · intro q hq
+          simp only [List.mem_map] at hq
+          obtain ⟨r, _, rfl⟩ := hq
+          exact reg_routed hz hr r
+    · simp [OutOK]
+    · rename_i srcs hact
+      split
+      · simp only []
+        split
+        · exact slice_ok hwf hz now self fuel _ hr
+        · exact ⟨rfl, selTargets_routed hz hr srcs⟩
+      · simp only []
+        split
+        · exact slice_ok hwf hz now self fuel _ hr
+        · simp [OutOK]
+        · simp [OutOK]
+
+/-! ### executor step -/
+
+theorem RInv.ghost {s : Sys} (h : RInv s) (sent appended dropped : List (Pid × Msg)) (spawned reported learned : List (Pid × Pid))
+    (spawnNotified : List (Pid × Pid × Bool)) :
+    RInv { s with sent := sent, appended := appended, dropped := dropped, spawned := spawned, reported := reported,
+                  learned := learned, spawnNotified := spawnNotified } := { h with }
+
+theorem RInv.execStep {s : Sys} (h : RInv s) (i : Wid) (fuel : Nat) (ordQ : List Pid) : RInv (execStep s i fuel ordQ) := by
+  unfold QM.Sys.execStep
+  simp only []
+  have hs0 := SameProcs.checkExpired (s.wk i) s.prog s.now ordQ
+  generalize (s.wk i).checkExpired s.prog s.now ordQ = w0 at *
+  split
+  · exact h.setWk_same i hs0
+  · rename_i cur rest _
+    have hs1 : SameProcs (s.wk i) { w0 with queue := rest } := hs0.trans (SameProcs.of_eq rfl rfl)
+    split
+    · exact h.setWk_same i hs1
+    · rename_i x hx
+      simp only [] at hx
+      obtain ⟨x0, hx0, hreg0⟩ := hs1.regs cur x hx
+      have hxr : ∀ q ∈ x.regs, Routed s.env.router q := fun q hq => h.regs i cur x0 hx0 q (hreg0 ▸ hq)
+      have hcur : s.env.router cur = some i := h.placed i cur (by unfold known; simp [hx0])
+      split
+      · exact h.setWk_same i (hs1.trans (SameProcs.finish hx rfl ordQ))
+      · have hsl := slice_ok h.progwf h.zero s.now cur fuel x hxr
+        generalize slice s.prog s.now cur fuel x = r at hsl
+        obtain ⟨x', out⟩ := r
+        simp only [] at hsl ⊢
+        have hs2 : SameProcs (s.wk i) { w0 with queue := rest, procs := upd w0.procs cur (some x') } :=
+          hs1.trans (SameProcs.updProc hx hsl.1 rfl rfl)
+        have hx2 : ({ w0 with queue := rest, procs := upd w0.procs cur (some x') } : WorkerSt).procs cur = some x' := by simp
+        cases out with
+        | cont => exact h.setWk_same i (hs2.trans (SameProcs.of_eq rfl rfl))
+        | send t m =>
+          have h1 := h.setWk_same i (hs2.trans (SameProcs.of_eq (w' := { w0 with queue := rest ++ [cur], procs := upd w0.procs cur (some x') }) rfl rfl))
+          have h2 := h1.pushEvt i (.deliver t m) ⟨by rw [hsl.2.2]; exact hcur, hsl.2.1⟩
+          exact { h2 with }
+        | spawn fn regs =>
+          have h1 := h.setWk_same i (hs2.trans (SameProcs.of_eq (w' := { w0 with queue := rest, procs := upd w0.procs cur (some x'), spawning := sinsert w0.spawning cur }) rfl rfl))
+          exact h1.pushEvt i (.spawn cur fn regs none) ⟨hcur, hsl.2.1, hsl.2.2⟩
+        | awaitInit ts =>
+          have h1 := h.setWk_same i (hs2.trans (SameProcs.of_eq (w' := { w0 with queue := rest, procs := upd w0.procs cur (some x'), selecting := sinsert w0.selecting cur }) rfl rfl))
+          exact h1.pushEvt i (.await cur ts) ⟨hcur, hsl.2⟩
+        | blocked => exact h.setWk_same i (hs2.trans (SameProcs.of_eq rfl rfl))
+        | failed => exact h.setWk_same i (hs2.trans (SameProcs.finish hx2 rfl ordQ))
+        | done => exact h.setWk_same i (hs2.trans (SameProcs.finish hx2 rfl ordQ))
 
 end QM.Sys
